@@ -371,7 +371,10 @@ class IRFlow:
             t = TYPED_ATTRS[e.attr]
             if e.attr == 'parent_type':
                 own = self._seed(f, e.value, depth - 1, at, stack)
-                cs = frozenset(t) if own is None else frozenset(t) & set(own)
+                if own is None:
+                    return None
+                own = self.narrow(f, at, unparse(e.value), own) if at is not None else set(own)
+                cs = frozenset(t) & set(own)
             else:
                 cs = self.U if t == ANY else frozenset(t)
             out = {c: 'schema .%s' % e.attr for c in cs}
@@ -422,11 +425,20 @@ class IRFlow:
             return self._seed(f, v, depth - 1, stmt, stack)
         if kind.startswith('assign-unpack:') and isinstance(v, ast.Call):
             idx = int(kind.split(':')[1])
-            if call_name(v) == 'unwrap_nullable' and v.args:
+            strip = {'unwrap_nullable': {'Nullable'}, 'unwrap_aliases': {'Alias'},
+                     'unwrap': {'Nullable', 'Alias'}}.get(call_name(v))
+            if strip is not None and v.args:
                 if idx != 0:
                     return None
                 s = self._seed(f, v.args[0], depth - 1, stmt, stack)
-                return None if s is None else {c: p for c, p in s.items() if c != 'Nullable'}
+                if s is None:
+                    return None
+                out = {c: p for c, p in s.items() if c not in strip}
+                if set(s) & strip:
+                    # what was wrapped can be any type the backend sees
+                    for c in self.U - strip:
+                        out.setdefault(c, 'inside %s' % '/'.join(sorted(set(s) & strip)))
+                return out
             for g in self.resolve(f, v):
                 rets = [n for n in own_nodes(g.node) if isinstance(n, ast.Return)]
                 if len(rets) == 1 and isinstance(rets[0].value, ast.Tuple) and \
@@ -434,10 +446,22 @@ class IRFlow:
                     return self._seed(g, rets[0].value.elts[idx], depth - 1, rets[0], ())
             return None
         if kind == 'iter':
+            if isinstance(v, ast.Name) and v.id not in f.params:
+                src = defs(f.node).single(v.id)
+                if src is not None:
+                    v = src
             if isinstance(v, ast.Call) and call_name(v) == 'linearize_data_types':
                 return {'Struct': 'linearize_data_types()', 'Union': 'linearize_data_types()'}
             if isinstance(v, ast.Call) and call_name(v) == 'get_enumerated_subtypes':
                 return {'UnionField': 'get_enumerated_subtypes()'}
+            if isinstance(v, ast.Attribute) and v.attr == 'data_types':
+                return {'Struct': '.data_types', 'Union': '.data_types'}
+            if isinstance(v, ast.Attribute) and v.attr == 'aliases':
+                return {'Alias': '.aliases'}
+            if isinstance(v, ast.Call) and call_name(v) == 'get_data_types_for_namespace':
+                return {'Struct': 'get_data_types_for_namespace()',
+                        'Union': 'get_data_types_for_namespace()',
+                        'Alias': 'get_data_types_for_namespace()'}
             if isinstance(v, ast.Attribute) and v.attr in FIELD_LISTS:
                 own = self.classes_at(f, stmt, v.value)
                 if own is None:
@@ -491,10 +515,97 @@ class IRFlow:
                 cur = {c for c in cur if c in keep or c not in full}
         return cur
 
+    # ------------------------------------------------------------ callee preconditions
+    def must_raise(self, g, pname):
+        """Classes of parameter ``pname`` for which ``g`` certainly raises: a
+        raise statement all of whose path conditions are class tests on it."""
+        key = (g.qualname, pname, 'must-raise')
+        if key in self._pu:
+            return self._pu[key]
+        pi = path_info(g.node)
+        full = self.fam.universe()
+        out = set()
+        if not defs(g.node).values.get(pname):
+            for n in own_nodes(g.node):
+                if not isinstance(n, ast.Raise):
+                    continue
+                cur = set(full)
+                pure = True
+                for e, pol in pi.at(n):
+                    t = class_test(self.pm, self.fam, g.module, e, pname)
+                    if t is None:
+                        pure = False
+                        break
+                    cur &= (t if pol else full - t)
+                if pure and pi.at(n):
+                    out |= cur
+        self._pu[key] = frozenset(out)
+        return self._pu[key]
+
+    def _guaranteed_calls(self, stmt):
+        """Calls that certainly ran when control passed ``stmt``."""
+        if isinstance(stmt, ast.Expr) and isinstance(stmt.value, ast.Call):
+            return [stmt.value]
+        if isinstance(stmt, ast.Assign) and isinstance(stmt.value, ast.Call):
+            return [stmt.value]
+        if isinstance(stmt, (ast.With, ast.AsyncWith)):
+            return [c for s2 in stmt.body for c in self._guaranteed_calls(s2)]
+        if isinstance(stmt, ast.If) and stmt.orelse:
+            a = [c for s2 in stmt.body for c in self._guaranteed_calls(s2)]
+            b = [c for s2 in stmt.orelse for c in self._guaranteed_calls(s2)]
+            return [c for c in a if any(unparse(c.func) == unparse(d.func) for d in b)] + \
+                [d for d in b if any(unparse(c.func) == unparse(d.func) for c in a)]
+        return []
+
+    def _precondition_excluded(self, f, node, subject):
+        """Classes of ``subject`` excluded because an earlier, unconditional
+        call on the path raises for them."""
+        out = set()
+        child = node
+        while child is not None and child is not f.node:
+            par = getattr(child, '_parent', None)
+            if par is None:
+                break
+            for field in ('body', 'orelse', 'finalbody'):
+                blk = getattr(par, field, None)
+                if isinstance(blk, list) and child in blk:
+                    for prev in blk[:blk.index(child)]:
+                        calls = self._guaranteed_calls(prev)
+                        if isinstance(prev, ast.If) and prev.orelse:
+                            # the same exclusion must hold on both branches
+                            groups = {}
+                            for c in calls:
+                                groups.setdefault(unparse(c.func), []).append(c)
+                            for cs in groups.values():
+                                ex = [self._call_excludes(f, c, subject) for c in cs]
+                                if len(ex) >= 2:
+                                    out |= set.intersection(*map(set, ex))
+                        else:
+                            for c in calls:
+                                out |= self._call_excludes(f, c, subject)
+            child = par
+        return out
+
+    def _call_excludes(self, f, call, subject):
+        out = None
+        for g in self.resolve(f, call):
+            params = self._own_params(g)
+            ex = set()
+            for i, a in enumerate(call.args):
+                if unparse(a) == subject and i < len(params):
+                    ex |= self.must_raise(g, params[i])
+            for kw in call.keywords:
+                if kw.arg in params and unparse(kw.value) == subject:
+                    ex |= self.must_raise(g, kw.arg)
+            out = ex if out is None else (out & ex)
+        return out or set()
+
     def classes_at(self, f, node, expr):
         """{class: provenance} of ``expr`` when ``node`` executes, or None."""
         seed = self._seed(f, expr, 6, node)
         if seed is None:
             return None
         keep = self.narrow(f, node, unparse(expr), seed)
+        if keep and isinstance(expr, (ast.Name, ast.Attribute)):
+            keep = keep - self._precondition_excluded(f, node, unparse(expr))
         return {c: p for c, p in seed.items() if c in keep}
